@@ -151,19 +151,21 @@ FirstIndex(st, net, dc) == IF net = 0 THEN FirstIndexL1(st, dc) ELSE FirstIndexL
 (* ---- the claim proof, as coded ---- *)
 EmptyProof == [h \in 0..(H - 1) |-> Junk]
 
-Claim(st, net, i, dc) ==
+Tabs(st) == [l1 |-> RhtL1(st), l2 |-> RhtL2, u |-> RhtU(st)]      \* the three node tables (computed once per state)
+
+Claim(st, tb, net, i, dc) ==
   IF i + 1 \notin DOMAIN st.infos THEN [ok |-> FALSE]
   ELSE LET info == st.infos[i + 1]
            mer  == MerTerm(info.mer)
            rer  == RerTerm(info.f) IN
        IF net = 0
-       THEN [ok |-> TRUE, pl |-> GetSiblings(IF Variant = "wrongTree" THEN RhtL2 ELSE RhtL1(st), dc, mer), pr |-> EmptyProof,
+       THEN [ok |-> TRUE, pl |-> GetSiblings(IF Variant = "wrongTree" THEN tb.l2 ELSE tb.l1, dc, mer), pr |-> EmptyProof,
              mer |-> mer, rer |-> rer, ler |-> Junk]
        ELSE LET lookup == IF Variant = "wrongRER" THEN RerTerm(st.infos[Len(st.infos)].f) ELSE rer
-                ler    == GetLeaf(RhtU(st), Ours - 1, lookup) IN
+                ler    == GetLeaf(tb.u, Ours - 1, lookup) IN
             IF ler = <<"NotFound">> THEN [ok |-> FALSE]
-            ELSE [ok |-> TRUE, pl |-> GetSiblings(IF Variant = "wrongTree" THEN RhtL1(st) ELSE RhtL2, dc, ler),
-                  pr |-> GetSiblings(RhtU(st), Ours - 1, rer), mer |-> mer, rer |-> rer, ler |-> ler]
+            ELSE [ok |-> TRUE, pl |-> GetSiblings(IF Variant = "wrongTree" THEN tb.l1 ELSE tb.l2, dc, ler),
+                  pr |-> GetSiblings(tb.u, Ours - 1, rer), mer |-> mer, rer |-> rer, ler |-> ler]
 
 -----------------------------------------------------------------------------
 (* ---- property C12 ---- *)
@@ -190,9 +192,10 @@ ErrorsExplained(st) ==
 
 (* for every recorded bridge and every covering leaf the proof folds: leaf -> MER (L1) / leaf -> LER -> RER (L2) *)
 ClaimOK(st) ==
+  LET tb == Tabs(st) IN
   \A net \in Nets : \A dc \in Recorded(st, net) : \A i \in 0..(Len(st.infos) - 1) :
      Covers(net, st.infos[i + 1], dc) =>
-       LET c == Claim(st, net, i, dc) IN
+       LET c == Claim(st, tb, net, i, dc) IN
        /\ c.ok
        /\ c.mer = MerTerm(st.infos[i + 1].mer) /\ c.rer = RerTerm(st.infos[i + 1].f)
        /\ IF net = 0
@@ -231,9 +234,9 @@ Spec == Init /\ [][Next]_blocks
 
 -----------------------------------------------------------------------------
 (* case export: every reachable history (each state has exactly one predecessor), with the model's lookup answers *)
-Expected(st) == { [net |-> net, dc |-> dc, ok |-> FirstIndex(st, net, dc).ok, idx |-> FirstIndex(st, net, dc).idx,
-                   err |-> FirstIndex(st, net, dc).err] : net \in Nets, dc \in 0..(Max({MaxDeps, MaxL2}) - 1) }
+Expected(st) == { LET r == FirstIndex(st, x[1], x[2]) IN [net |-> x[1], dc |-> x[2], ok |-> r.ok, idx |-> r.idx, err |-> r.err]
+                  : x \in {y \in Nets \X (0..(Max({MaxDeps, MaxL2}) - 1)) : y[2] \in Recorded(st, y[1])} }
 Dump == LET st == St(blocks') IN
         PrintT(<<"CASE", ToJson([ours |-> Ours, n2 |-> MaxL2, blocks |-> blocks',
-                                 exp |-> {x \in Expected(st) : x.dc \in Recorded(st, x.net)}])>>)
+                                 exp |-> Expected(st)])>>)
 =============================================================================
